@@ -7,6 +7,7 @@ import (
 	"strings"
 	"time"
 
+	"github.com/glebziz/fs_db"
 	"github.com/glebziz/fs_db/verifh/conc"
 	"github.com/glebziz/fs_db/verifh/dbh"
 	"github.com/glebziz/fs_db/verifh/model"
@@ -23,7 +24,9 @@ import (
 // only that.
 //
 // params: "op=S" (overwrite) | "op=D" (delete) | "op=T" (RC transaction: set, commit) | "op=C" (Create, two
-// Write calls, Close: the asynchronous pipeline)
+// Write calls, Close: the asynchronous pipeline) | "op=R" (RepeatableRead transaction: set, commit — with
+// vs=S the commit may be refused with ErrTxSerialization: from the moment it has returned that error no
+// crash may bring its value back)
 func init() {
 	conc.Register("crash-conc", func(p string) *conc.Scenario {
 		op, vs := "S", "X"
@@ -59,6 +62,7 @@ func init() {
 				ack1 := len(rec.Log)
 				ack2 := -1
 				var werr error
+				refused := false
 				vrt.SetBranching(true)
 				var wg sync.WaitGroup
 				wg.Add(2)
@@ -67,13 +71,21 @@ func init() {
 					switch op {
 					case "D":
 						werr = in.DB.Delete(ctx, "a")
-					case "T":
-						tx, err := in.DB.Begin(ctx, 1)
+					case "T", "R":
+						lv := fs_db.IsoLevelReadCommitted
+						if op == "R" {
+							lv = fs_db.IsoLevelRepeatableRead
+						}
+						tx, err := in.DB.Begin(ctx, lv)
 						if err == nil {
 							err = tx.Set(ctx, "a", dbh.Content(2, 8))
 						}
 						if err == nil {
 							err = tx.Commit(ctx)
+							if op == "R" && err != nil && dbh.Class(err) == model.ErrTxSerialization {
+								// first committer wins: the other writer's version was published first
+								refused, err = true, nil
+							}
 						}
 						werr = err
 					case "C":
@@ -161,6 +173,9 @@ func init() {
 						// value a reader was given at that moment
 						ok = (k < ackBoth && (v == 1 || v == 3 || v == newVal)) || (k >= ackBoth && v == finalVal)
 						_ = ack3
+						if refused && k >= ack2 && v == newVal {
+							return fmt.Sprintf("crash-refused-commit-durable: %s: Commit had returned ErrTxSerialization, yet the recovered state holds the refused transaction's value {%s}", where, o), ""
+						}
 					}
 					if !ok {
 						state := "in flight"
